@@ -171,6 +171,10 @@ class C05(vlib.Driver):
                    "EvolvableAlgorithm.clone itself is property C01; here only fitness/index/tag/network-parameter equality "
                    "and non-aliasing of the copies are observed"]
     shard = 40
+    notes = ["exhaustive=true refers to stream A only (every weak ordering of the window means for n<=4 x every draw tuple x "
+             "both elitism settings); streams B-F are seeded",
+             "label branch:top-tie-broken-unlike-a-stable-sort counts cases where NumPy's argsort ranked a tied agent differently "
+             "from a stable sort: tie classes are therefore compared by mean value, never by position"]
 
     # ---------- generation
     VALS = [-8.0, -2.5, -1.0, -0.25, 0.0, 0.5, 1.0, 1.0, 2.0, 2.0, 3.75, 6.0, 10.0]
